@@ -125,7 +125,8 @@ class VersionedDataHandler:
             )
 
             # check if perc_expected_vote_corr is monotone increasing (if not, give up and don't try to estimate a margin)
-            if not np.all(np.diff(perc_expected_vote_corr) >= 0):
+            # when the latest version has no votes perc_expected_vote_corr is all zero, so look at the turnout too
+            if not (np.all(np.diff(perc_expected_vote_corr) >= 0) and np.all(np.diff(results_turnout) >= 0)):
                 return pd.DataFrame(
                     {
                         "percent_expected_vote": np.arange(101),
